@@ -3,7 +3,7 @@
    table miss is reported as a disagreement, never papered over.  Case files
    use the constructor functions below (no record syntax, no nat numerals). *)
 From Coq Require Import ZArith List String Ascii Bool Uint63.
-From GSP Require Import Base.Prelude Base.Decode Claim.Model.
+From GSP Require Import Base.Prelude Base.Decode Claim.Model Merklizer.SliceModel Claim.OptsSlice.
 Import ListNotations.
 Open Scope list_scope.
 
@@ -216,3 +216,75 @@ Definition run_parse_claim (r : raw_oracles) (creds : list cred) (c : fcase) : r
 
 Definition fmismatches (r : raw_oracles) (creds : list cred) (cs : list fcase) : list int :=
   fold_right (fun c acc => if obs_agree (run_parse_claim r creds c) (f_obs c) then acc else f_id c :: acc) [] cs.
+
+(* ---- C17: the processor with every subset of {validator, parser, loader}, stub components ----
+   The stubs answer: validator Err "verdict"; parser index 6 / the zero claim; loader a document.
+   The implementation's answer is observed as: the component's own answer, or the method's
+   "X is not defined" error (X recorded), or anything else. *)
+Inductive fmethod := MValidate | MSlotIndex | MParseClaim | MLoad.
+Inductive sobs := SComponent | SNotDefined (what : string) | SOther.
+
+Definition stub_processor (hasV hasP hasL : bool) : processor unit unit unit unit :=
+  {| pr_validator := if hasV then Some (fun _ _ => Err "verdict") else None;
+     pr_parser := if hasP then Some {| ps_parse_claim := fun _ _ => Ok claim_zero;
+                                       ps_slot_index := fun _ _ _ => Ok 6%Z |} else None;
+     pr_loader := if hasL then Some (fun _ => Ok tt) else None |}.
+
+Definition not_defined_of (t : string) : sobs :=
+  if String.eqb t "validator-not-defined" then SNotDefined "validator"
+  else if String.eqb t "parser-not-defined" then SNotDefined "parser"
+  else if String.eqb t "loader-not-defined" then SNotDefined "loader"
+  else SOther.
+
+Definition run_subset (hasV hasP hasL : bool) (m : fmethod) : sobs :=
+  let p := stub_processor hasV hasP hasL in
+  match m with
+  | MValidate => match facade_validate _ _ _ _ p tt tt with
+                 | Err t => if String.eqb t "verdict" then SComponent else not_defined_of t
+                 | _ => SOther end
+  | MSlotIndex => match facade_slot_index _ _ _ _ p "f" "t" tt with
+                  | Ok i => if Z.eqb i 6 then SComponent else SOther
+                  | Err t => not_defined_of t
+                  | _ => SOther end
+  | MParseClaim => match facade_parse_claim _ _ _ _ p tt tt with
+                   | Ok cl => if claim_eqb cl claim_zero then SComponent else SOther
+                   | Err t => not_defined_of t
+                   | _ => SOther end
+  | MLoad => match facade_load _ _ _ _ p "u" with
+             | Ok _ => SComponent
+             | Err t => not_defined_of t
+             | _ => SOther end
+  end.
+
+Definition sobs_eqb (a b : sobs) : bool :=
+  match a, b with
+  | SComponent, SComponent => true
+  | SNotDefined x, SNotDefined y => String.eqb x y
+  | _, _ => false          (* SOther (a panic, a foreign error) never agrees *)
+  end.
+
+Record scase := { sc_id : int; sc_v : bool; sc_p : bool; sc_l : bool; sc_m : fmethod; sc_obs : sobs }.
+Definition mks (id : int) (v p l : bool) (m : fmethod) (o : sobs) : scase :=
+  {| sc_id := id; sc_v := v; sc_p := p; sc_l := l; sc_m := m; sc_obs := o |}.
+Definition smismatches (cs : list scase) : list int :=
+  fold_right (fun c acc => if sobs_eqb (run_subset (sc_v c) (sc_p c) (sc_l c) (sc_m c)) (sc_obs c)
+                           then acc else sc_id c :: acc) [] cs.
+
+(* ---- C05: the backing arrays of the options' MerklizerOpts (Claim/OptsSlice.v) ----
+   Elements are small integers naming the options (by code pointer, numbered per history; 0 = empty
+   cell).  The case gives the heap before the history, the option objects' slices, the calls; the
+   implementation's observation is every object's window up to its capacity after the history. *)
+Definition mk_slice (a len cap : int) : slice :=
+  mkslice (nat_of_int a) 0 (nat_of_int len) (nat_of_int cap).
+Record zcase := { z_id : int; z_heap : list (list int); z_objs : list slice; z_calls : list int;
+                  z_after : list (list int) }.
+Definition mkz (id : int) (h : list (list int)) (objs : list slice) (calls : list int)
+  (after : list (list int)) : zcase :=
+  {| z_id := id; z_heap := h; z_objs := objs; z_calls := calls; z_after := after |}.
+
+Definition zcase_ok (c : zcase) : bool :=
+  let calls := map (fun i => nth (nat_of_int i) (z_objs c) (mkslice 0 0 0 0)) (z_calls c) in
+  let h' := fst (run_mz int 0%uint63 (fun _ => O) (VRepo int) (z_heap c) calls) in
+  list_eqb (list_eqb Uint63.eqb) (map (fun o => view int h' (full o)) (z_objs c)) (z_after c).
+Definition zmismatches (cs : list zcase) : list int :=
+  fold_right (fun c acc => if zcase_ok c then acc else z_id c :: acc) [] cs.
